@@ -42,6 +42,8 @@ type World struct {
 	Alias map[string]*FuncInfo
 	// FieldAlias does the same for private struct fields ("rel|type|field")
 	FieldAlias map[string]*types.Var
+	// TypeAlias does the same for private named types ("rel|name")
+	TypeAlias map[string]*types.Named
 }
 
 // FuncInfo ties a declared function to its syntax and package.
@@ -230,6 +232,9 @@ func (w *World) Named(rel, name string) *types.Named {
 	}
 	tn, _ := p.Types.Scope().Lookup(name).(*types.TypeName)
 	if tn == nil {
+		if a := w.TypeAlias[rel+"|"+name]; a != nil {
+			return a
+		}
 		return nil
 	}
 	n, _ := tn.Type().(*types.Named)
